@@ -51,6 +51,10 @@ type mediaPlan struct {
 	// WriteYield: the (simulated) transport write towards a subscriber is a
 	// scheduling point
 	WriteYield bool `json:"writeyield,omitempty"`
+	// SinkStalls: the transport towards receiver R blocks for Ms when it is
+	// handed its At-th packet (a slow subscriber): the server's writer
+	// queue for it overflows and the writer falls behind the packet cache
+	SinkStalls []sinkStall `json:"sinkstalls,omitempty"`
 }
 
 // stubClient is a minimal group.Client for the media world.
@@ -79,6 +83,12 @@ func (s *stubClient) PushClient(group, kind, id, username string, perms []string
 }
 
 // ---- observation state
+
+type sinkStall struct {
+	R  int `json:"r"`
+	At int `json:"at"`
+	Ms int `json:"ms"`
+}
 
 type presentation struct {
 	src                  *srcPkt
@@ -285,6 +295,19 @@ func (w *mediaWorld) setup() bool {
 		w.byTrk[dts[0]] = rs
 		ctx := &simrt.CaptureContext{Id: fmt.Sprintf("cap%d", i), Ssrc: uint32(0x9000 + i), Codecs: []webrtc.RTPCodecParameters{cp}}
 		ctx.YieldOnWrite = w.p.WriteYield
+		if len(w.p.SinkStalls) > 0 {
+			ri, used := i, map[int]bool{}
+			ctx.Stall = func() time.Duration {
+				for si, sl := range w.p.SinkStalls {
+					if sl.R == ri && sl.At == rs.captured && !used[si] {
+						used[si] = true
+						c.Count("fault.subscriber_stall", 1)
+						return time.Duration(sl.Ms) * time.Millisecond
+					}
+				}
+				return 0
+			}
+		}
 		ctx.Sink = func(h *rtpHeader, payload []byte) {
 			rs.captured++
 			// what really leaves, after the scheduling point inside the
